@@ -924,7 +924,7 @@ fn parents(
     let mut res = Vec::new();
 
     while !key.is_empty() {
-        let entry = get_exact(table, namespace, author, &key, false);
+        let entry = get_exact(table, namespace, author, &key, true);
         key.pop();
         match entry {
             Err(err) => res.push(Err(err)),
